@@ -85,6 +85,8 @@ def act_sexp(a):
         return "(c %d)" % a[1]
     if k in ("skip", "expect", "call"):
         return k
+    if k == "calle":
+        return "call"                  # an unexpected call - of the function other tests declared expectations for
     if k == "die":
         return "(die %s %d)" % ("sig" if a[1] == "sig" else "exit", a[2])
     if k in ("figs", "figscheck", "poke", "peek"):
@@ -135,6 +137,8 @@ def act_scn(a):
         return "expect mocked_e"
     if k == "call":
         return "call mocked_c"
+    if k == "calle":
+        return "call mocked_e"
     if k in ("poke", "peek"):
         return "%s %d" % (k, a[1])
     if k == "raw":
